@@ -62,7 +62,7 @@ def init_worker(log_queue=None):
         # Wipe all local handlers, since we dispatch to the master.
         # We also drop the logging level, so that the master may
         # decide what to do.
-        for handler in default_logger.handlers:
+        for handler in list(default_logger.handlers):
             default_logger.removeHandler(handler)
         default_logger.addHandler(qh)
         default_logger.setLevel(log_level)
